@@ -662,6 +662,11 @@ _NS_CASES = {
     'rosa="http://openrosa.org/xforms"': [("rosa", "http://openrosa.org/xforms")],
     'esri="http://example.org/gis" arcgis="http://example.org/gis"': [("esri", "http://example.org/gis"), ("arcgis", "http://example.org/gis")],
     "q='http://example.org/q'": [("q", "http://example.org/q")],
+    # a cell that is not tidy: a stray word, a bare prefix, an `=` on its own - the well-formed pairs are still declared
+    # and nothing escapes as an internal exception (C17)
+    'foo="http://example.org/foo" draft': [("foo", "http://example.org/foo")],
+    'bare foo="http://example.org/foo"': [("foo", "http://example.org/foo")],
+    'esri = "http://example.org/gis" foo="http://example.org/foo"': [("foo", "http://example.org/foo")],
 }
 
 
@@ -704,6 +709,7 @@ def nsmap_table(ctx, rule):
                     res = it.call_function(nsf, [s], {}, None, nsf.node)
                 except Raised as e:
                     res = f"raises {e.exc_name}{e.exc_args}"
+                    out.append((f"entity_features={'set' if feats else 'unset'} namespaces={ns!r} call#{rnd}", feats, ns, res))
                     break
                 desc = f"entity_features={'set' if feats else 'unset'} namespaces={ns!r} call#{rnd}"
                 out.append((desc, feats, ns, res))
